@@ -123,7 +123,7 @@ public:
         //  1: another count is set before the load, the requested one after it, followed by a rewind (the count in force after a rewind is the one last set)
         //  2: before playing, a seek into the post-song wait (between the last event and the reported length): it reaches the end, starts over - looping must stay on
         //  3: both
-        const int preludeDraw = (int)(mix64((uint64_t)p.get("songseed"), 0x9E11) % 8); const int prelude = preludeDraw < 4 ? 0 : preludeDraw - 4;   // 5 of 8 runs have none
+        const int preludeDraw = (int)(mix64((uint64_t)p.get("songseed"), 0x9E11) % 8); const int prelude = (int)p.get("prelude", preludeDraw < 4 ? 0 : preludeDraw - 4);   // 5 of 8 runs have none
         opn2_setLoopCount(dev, (prelude & 1) ? (count == 3 ? 1 : 3) : count);     // before loading: the count is latched when the time line is built
         rec.initHookUd();
         auto setHooks = [&]() { opn2_setLoopStartHook(dev, RawRecorder::cbLoopStart2, &rec.udStart); opn2_setLoopEndHook(dev, RawRecorder::cbLoopEnd2, &rec.udEnd); };
